@@ -92,7 +92,7 @@ theorem ranIdxs_append (a b : List Ev) : ranIdxs (a ++ b) = ranIdxs a ++ ranIdxs
   | nil => rfl
   | cons x xs ih => cases x <;> simp [ranIdxs, ih]
 
-theorem ranIdxs_fireCallbacks (subs : List (Nat × Nat)) (t : Nat) (r : Option (Desc × Nat)) :
+theorem ranIdxs_fireCallbacks (subs : List (Nat × Nat)) (t : Nat) (r : Res) :
     ranIdxs (fireCallbacks subs t r) = [] := by
   induction subs with
   | nil => rfl
@@ -121,7 +121,12 @@ theorem applyEntry_continue {n n' : Node} {e : Entry} {evs : List Ev} (h : apply
       · simp only; omega
   · rename_i fid arg hc
     split at h
-    · simp at h
+    · simp only [Prod.mk.injEq, and_true] at h
+      obtain ⟨rfl, rfl⟩ := h
+      refine ⟨rfl, rfl, rfl, rfl, ?_, ?_, ?_⟩
+      · rintro ⟨v', hv', _⟩; rw [hc] at hv'; cases hv'
+      · simp [ranIdxs_fireCallbacks, ranIdxs]
+      · simp only; omega
     · simp only [Prod.mk.injEq, and_true] at h
       obtain ⟨rfl, rfl⟩ := h
       refine ⟨rfl, rfl, rfl, rfl, ?_, ?_, ?_⟩
@@ -149,9 +154,25 @@ theorem applyEntry_stop {n n' : Node} {e : Entry} {evs : List Ev} (h : applyEntr
       exact ⟨rfl, rfl, rfl, rfl, rfl, rfl⟩
     · simp at h
   · split at h
-    · simp only [Prod.mk.injEq, and_true] at h
-      obtain ⟨rfl, rfl⟩ := h
-      exact ⟨rfl, rfl, rfl, rfl, rfl, rfl⟩
+    · simp at h
+    · simp at h
+  · simp at h
+
+/-- The ONLY thing that stops the loop is a VERSION entry this code does not have (an unknown method id does not:
+its `KeyError` is the command's result, repair D9); the node is then exactly as before the entry. -/
+theorem applyEntry_stop_iff {n n' : Node} {e : Entry} {evs : List Ev} (h : applyEntry n e = (n', evs, false)) :
+    Unsupported n.cls e ∧ n' = n := by
+  unfold applyEntry at h
+  simp only at h
+  split at h
+  · rename_i v hv
+    split at h
+    · rename_i hlt
+      simp only [Prod.mk.injEq, and_true] at h
+      exact ⟨⟨v, hv, hlt⟩, h.1.symm⟩
+    · simp at h
+  · split at h
+    · simp at h
     · simp at h
   · simp at h
 
@@ -226,7 +247,9 @@ theorem applyBatch_spec : ∀ (es : List Entry) (n n' : Node) (evs : List Ev),
                       obtain ⟨_, rfl⟩ := hae
                       simp [ranIdxs_fireCallbacks, ranIdxs]
                   · split at hae
-                    · simp at hae
+                    · simp only [Prod.mk.injEq, and_true] at hae
+                      obtain ⟨_, rfl⟩ := hae
+                      simp [ranIdxs_fireCallbacks, ranIdxs]
                     · simp only [Prod.mk.injEq, and_true] at hae
                       obtain ⟨_, rfl⟩ := hae
                       simp [ranIdxs_fireCallbacks, ranIdxs]
@@ -254,6 +277,48 @@ theorem applyBatch_spec : ∀ (es : List Entry) (n n' : Node) (evs : List Ev),
           intro e' he' _
           have := hc.le_idx he'
           omega
+
+/-- A batch is consumed completely unless it meets a VERSION entry the code does not have; then it is consumed
+exactly up to the first such entry. Nothing else (in particular not an unknown method id) stops it. -/
+theorem applyBatch_stops_only_at_unsupported : ∀ (es : List Entry) (n n' : Node) (evs : List Ev),
+    applyBatch n es = (n', evs) →
+    n'.lastApplied = n.lastApplied + es.length ∨
+    ∃ pre e post, es = pre ++ e :: post ∧ Unsupported n.cls e ∧ (∀ x ∈ pre, ¬ Unsupported n.cls x) ∧
+      n'.lastApplied = n.lastApplied + pre.length
+  | [], n, n', evs, h => by
+    simp only [applyBatch, Prod.mk.injEq] at h
+    obtain ⟨rfl, _⟩ := h
+    exact .inl rfl
+  | e :: rest, n, n', evs, h => by
+    unfold applyBatch at h
+    cases hae : applyEntry n e with
+    | mk n1 r =>
+      cases r with
+      | mk evs1 b =>
+        rw [hae] at h
+        cases b with
+        | true =>
+          simp only at h
+          obtain ⟨c1, l1, _, _, u1, _, _⟩ := applyEntry_continue hae
+          cases hb : applyBatch n1 rest with
+          | mk n2 evs2 =>
+            rw [hb] at h
+            simp only [Prod.mk.injEq] at h
+            obtain ⟨rfl, _⟩ := h
+            rcases applyBatch_stops_only_at_unsupported rest n1 n2 evs2 hb with hall | ⟨pre, e', post, hes, hu, hpre, hla⟩
+            · left; simp only [List.length_cons]; omega
+            · right
+              rw [c1] at hu hpre
+              refine ⟨e :: pre, e', post, by rw [hes]; rfl, hu, ?_, by simp only [List.length_cons]; omega⟩
+              intro x hx
+              rcases List.mem_cons.1 hx with rfl | hx
+              · exact u1
+              · exact hpre x hx
+        | false =>
+          simp only [Prod.mk.injEq] at h
+          obtain ⟨rfl, _⟩ := h
+          obtain ⟨hu, rfl⟩ := applyEntry_stop_iff hae
+          exact .inr ⟨[], e, rest, rfl, hu, by simp, rfl⟩
 
 theorem getEntries_length_le (log : List Entry) (fromIdx count : Nat) :
     (getEntries log fromIdx count).length ≤ count := by
@@ -404,7 +469,9 @@ theorem applyEntry_enabled {n n' : Node} {e : Entry} {evs : List Ev} (h : applyE
       simp [hv]
   · rename_i fid arg hc
     split at h
-    · simp at h
+    · simp only [Prod.mk.injEq, and_true] at h
+      obtain ⟨rfl, _⟩ := h
+      simp [hc]
     · simp only [Prod.mk.injEq, and_true] at h
       obtain ⟨rfl, _⟩ := h
       simp [hc]
@@ -457,7 +524,7 @@ theorem applyBatch_enabled : ∀ (es : List Entry) (n n' : Node) (evs : List Ev)
 theorem applyEntry_ran {n : Node} {e : Entry} {i : Nat} {d : Desc} {x : Nat}
     (h : Ev.ran i d x ∈ (applyEntry n e).2.1) :
     ∃ fid, e.cmd = .regular fid x ∧ (idToMethod n.cls)[fid]? = some d ∧ i = e.idx := by
-  have hcb : ∀ (subs : List (Nat × Nat)) (t : Nat) (r : Option (Desc × Nat)), Ev.ran i d x ∉ fireCallbacks subs t r := by
+  have hcb : ∀ (subs : List (Nat × Nat)) (t : Nat) (r : Res), Ev.ran i d x ∉ fireCallbacks subs t r := by
     intro subs t r hm
     simp only [fireCallbacks, List.mem_map] at hm
     obtain ⟨s, _, hs⟩ := hm
@@ -473,7 +540,10 @@ theorem applyEntry_ran {n : Node} {e : Entry} {i : Nat} {d : Desc} {x : Nat}
       · exact absurd h (hcb _ _ _)
   · rename_i fid arg hc
     split at h
-    · simp at h
+    · simp only [List.cons_append, List.nil_append, List.mem_cons] at h
+      rcases h with h | h
+      · cases h
+      · exact absurd h (hcb _ _ _)
     · rename_i d' hd
       simp only [List.cons_append, List.nil_append, List.mem_cons] at h
       rcases h with h | h
